@@ -499,9 +499,14 @@ func writeEvidence(vdir string, o checkOpts, runs []unitRun, obs []*Obligation, 
 			"contracts_source":         contractsSource(runs),
 		},
 	}
-	os.MkdirAll(filepath.Join(vdir, "evidence"), 0o755)
+	// GOVC_EVIDENCE_DIR redirects the evidence of experiment runs (seeded changes, ad-hoc mutants) away from /verif/evidence
+	edir := filepath.Join(vdir, "evidence")
+	if d := os.Getenv("GOVC_EVIDENCE_DIR"); d != "" {
+		edir = d
+	}
+	os.MkdirAll(edir, 0o755)
 	b, _ := json.MarshalIndent(ev, "", " ")
-	os.WriteFile(filepath.Join(vdir, "evidence", o.prop+".json"), b, 0o644)
+	os.WriteFile(filepath.Join(edir, o.prop+".json"), b, 0o644)
 }
 
 func contractsSource(runs []unitRun) string {
